@@ -186,6 +186,19 @@ def gen_producer(rng, sh, ops, small=True):
     return sh.add(n, 0)
 
 
+def growable(sh, m):
+    return (sh.kind[m] == 1 and sh.n[m] is not None and sh.n[m] >= 1) or (sh.kind[m] == 2 and sh.tri[m] and not sh.spent[m])
+
+
+def grow(rng, sh, ops, m):
+    ops.append(["grow", m, pt(rng)])
+    if sh.n[m] is not None:
+        sh.n[m] += 1
+    sh.closed[m] = False
+    for k, (cont, a, nk) in enumerate(sh.attrs[m]):
+        pass
+
+
 def gen_param(rng, sh, allow_slot=True):
     r = rng.random()
     if allow_slot and r < 0.12:
@@ -213,13 +226,26 @@ def gen_case(rng, maxops=8):
         if r < 0.10:
             m = rng.choice(anyms)
             ca = rng.random() < 0.5
-            ops.append(["copy", m, ca, rng.random() < 0.15])
+            cc = rng.random() < 0.45
+            ops.append(["copy", m, ca, cc])
             o = sh.add(sh.n[m], sh.kind[m], sh.tri[m])
             sh.hexa[o] = sh.hexa[m]
             sh.closed[o] = sh.closed[m]
             sh.spent[o] = sh.spent[m]
             if ca:
                 sh.attrs[o] = list(sh.attrs[m])
+            # after a copy: query (tables computed now), let source and copy diverge, query both again - each
+            # object's connectivity must answer from its own containers
+            if growable(sh, m) and rng.random() < 0.7:
+                if rng.random() < 0.5:
+                    ops.append(["conn", rng.choice([m, o]), False])
+                first, second = (m, o) if rng.random() < 0.5 else (o, m)
+                grow(rng, sh, ops, first)
+                if rng.random() < 0.4:
+                    grow(rng, sh, ops, second)
+                clr = rng.random() < 0.5
+                ops.append(["conn", o, clr])
+                ops.append(["conn", m, rng.random() < 0.5])
         elif r < 0.24:
             cnt = rng.choice([1, 2, 2, 3])
             pool = [x for x in anyms if not sh.spent[x]]
@@ -364,4 +390,14 @@ def gen_case(rng, maxops=8):
                 m = rng.choice(c)
                 ops.append(["elem_edit", m, "faces", 0])
                 sh.spent[m] = True      # its corner tables no longer follow its faces: kept out of merge / subdivision
+        elif rr < 0.44:
+            c = [m for m in anyms if growable(sh, m)]
+            if c:
+                m = rng.choice(c)
+                grow(rng, sh, ops, m)
+                ops.append(["conn", m, rng.random() < 0.6])
+        elif rr < 0.48:
+            c = [m for m in anyms if growable(sh, m)]
+            if c:
+                ops.append(["conn", rng.choice(c), rng.random() < 0.5])
     return {"ops": ops, "inv": inv, "ints": ints}
